@@ -5,6 +5,7 @@
 #include "engine.h"
 #include "refcbor.h"
 #include <sys/personality.h>
+#include <sys/time.h>
 #include <unistd.h>
 #include <cstdlib>
 #include <exception>
@@ -45,6 +46,16 @@ static std::map<std::string, std::string> parse_args(int argc, char** argv, int 
         else a[k] = "1";
     }
     return a;
+}
+
+// Containment watchdog: a run may use `secs` seconds of CPU time (robust against a loaded machine) and 15x that of wall time
+// (catches a run that blocks without consuming CPU). Either limit kills the worker; the driver reports crash/timeout.
+static void arm_watchdog(unsigned secs) {
+    struct itimerval it;
+    memset(&it, 0, sizeof it);
+    it.it_value.tv_sec = secs;
+    setitimer(ITIMER_PROF, &it, nullptr);
+    alarm(secs ? secs * 15 : 0);
 }
 
 static void on_terminate() {
@@ -104,9 +115,9 @@ int main(int argc, char** argv) {
                 cx.describe = samples < 2;
                 cx.log.reset(false);
                 printf("B %llu %llu %u\n", (unsigned long long)i, (unsigned long long)cx.seed, cx.slot);
-                alarm(run_timeout);   // containment only: a run that does not end is reported as crash/timeout by the driver
+                arm_watchdog(run_timeout);   // containment only: a run that does not end is reported as crash/timeout by the driver
                 eng->fn(cx);
-                alarm(0);
+                arm_watchdog(0);
                 runs++;
                 events += cx.log.count;
                 distinct_hashes.insert(cx.log.hash);
@@ -156,9 +167,9 @@ int main(int argc, char** argv) {
             }
             cx.log.reset(a.count("trace"));
             printf("B 0 %llu\n", (unsigned long long)cx.seed);
-            alarm(run_timeout);
+            arm_watchdog(run_timeout);
             eng->fn(cx);
-            alarm(0);
+            arm_watchdog(0);
             uint64_t h1 = cx.log.hash;
             if (a.count("twice")) {
                 RunCtx c2;
